@@ -79,6 +79,26 @@ def _key(k):  # noqa: ANN001, ANN202
     return tuple(k) if isinstance(k, list) else k
 
 
+# A user-supplied cache: own file naming, own (extension-sensitive) writer and reader.  Like
+# numpy.save, the writer appends its extension when the path it is handed lacks it - which
+# only matters if the library hands it another path than tmp_dir / name_fn(key).
+def dat_name(k) -> str:  # noqa: ANN001
+    return f"res_{k}.dat"
+
+
+def dat_save(file, data) -> None:  # noqa: ANN001
+    path = os.fspath(file)
+    if not path.endswith(".dat"):
+        path += ".dat"
+    with open(path, "wb") as fp:
+        pickle.dump(data, fp)
+
+
+def dat_load(file):  # noqa: ANN001, ANN201
+    with open(os.fspath(file), "rb") as fp:
+        return pickle.load(fp)  # noqa: S301
+
+
 def run_workload(wl: dict, cache_dir: Path | None, logpath: str, *, mutate: bool = False, timeout: float | None = None):  # noqa: ANN201
     """Execute the workload once in this process; returns a canonical result structure.
     mutate=True: afterwards the caller changes the returned results in place (as a user
@@ -91,6 +111,8 @@ def run_workload(wl: dict, cache_dir: Path | None, logpath: str, *, mutate: bool
     cache = None
     if cache_dir is not None:
         cache = Cache(tmp_dir=crashfs.CrashPath(cache_dir))
+        if wl.get("cache_style") == "dat":
+            cache = Cache(tmp_dir=crashfs.CrashPath(cache_dir), name_fn=dat_name, save_fn=dat_save, load_fn=dat_load)
     kind = wl["kind"]
     if kind == "parallelise":
         inputs = [(_key(o["key"]), (logpath, _key(o["key"]), o["size"])) for o in wl["ops"]]
@@ -344,6 +366,9 @@ def gen_workload(rng: SimRng, tier: str) -> dict:
         "scope": "parallel" if kind == "parallelise" or r.random() < 0.6 else "mxlpy",
         "session_interrupt": r.choice([None, None, 0, 1, 5, 40]),
         "lockstep": _gen_lockstep(r, kind, n, tier) if parallel else None,
+        # a user-supplied cache (own naming / writer / reader): transparency and no-recompute are
+        # demanded of it; crash consistency is the writer's own business, so no kills there
+        "cache_style": "dat" if r.random() < 0.12 else "default",
     }
 
 
@@ -649,7 +674,11 @@ class CrashMachine(Machine):
             lsdry = None
             if not h.stop() and dry.get("status") == "ok" and wl.get("lockstep") and wl["parallel"]:
                 lsdry = h.lockstep_dry(wl["lockstep"])
-            if not h.stop() and dry.get("status") == "ok":
+            if not h.stop() and dry.get("status") == "ok" and wl.get("cache_style", "default") != "default":
+                h.counters["workloads_with_user_supplied_cache"] += 1
+                if lsdry is not None:
+                    h.crash_history([{"kind": "none", "lockstep": {"seed": wl["lockstep"]["seed"], "timeouts": list(wl["lockstep"].get("timeouts", []))}}], "ls-user-cache")
+            elif not h.stop() and dry.get("status") == "ok":
                 kills, exhaustive = self._kill_list(rng, wl, dry, tier)
                 if lsdry is not None and lsdry.get("status") == "ok":
                     kills = self._lockstep_kills(rng, wl, lsdry, tier) + kills
@@ -720,6 +749,10 @@ class CrashMachine(Machine):
                     if k.get("lockstep"):
                         k["lockstep"]["timeouts"] = list(t)
                 yield new
+        if wl.get("cache_style", "default") != "default":
+            new = copy.deepcopy(case)
+            new["workload"]["cache_style"] = "default"
+            yield new
         sc = (wl.get("lockstep") or {}).get("script")
         if sc:
             # shorter explicit schedules (what is cut off falls back to "first candidate")
